@@ -296,8 +296,14 @@ Qed.
 
 (* ------------------------------------------------------------------ the content lines *)
 
-Definition body_text (ind : nat) (more : list (nat * str)) : str :=
-  concat (map (fun '(k, t) => nls k ++ sp ind ++ t ++ [10]) more).
+Definition body_text (ind : nat) (more : list (list nat * str)) : str :=
+  concat (map (fun '(ks, t) => bl ks ++ sp ind ++ t ++ [10]) more).
+
+Lemma bl_le_ble ind ns : bl_le ind ns = true -> ble (N.of_nat ind) ns.
+Proof.
+  unfold bl_le, ble. rewrite forallb_forall. intros H. apply Forall_forall. intros n Hn.
+  specialize (H _ Hn). apply Nat.leb_le in H. lia.
+Qed.
 
 Lemma wsc_bs0 c : mem_N c in_scan_block_scalar_0 = wsc c.
 Proof. unfold wsc, mem_N, in_scan_block_scalar_0. cbn [existsb]. rewrite orb_false_r. reflexivity. Qed.
@@ -331,17 +337,19 @@ Ltac ccat := repeat rewrite concat_app; cbn [concat app]; repeat rewrite app_nil
              repeat rewrite <- app_assoc; cbn [app]; try reflexivity.
 
 Lemma block_lines_spec folded ind trail c0 t0 : (ind <> 0)%nat -> item_start c0 ->
+  ble (N.of_nat ind) trail ->
   forall more fuel s ch t r chunks breaks,
-  t = ch :: r -> forallb txtc t = true -> forallb (fun '(_, t) => wf_btext t) more = true ->
+  t = ch :: r -> forallb txtc t = true ->
+  forallb (fun '(ks, t) => bl_le ind ks && wf_btext t) more = true ->
   s_col s = N.of_nat ind ->
-  s_rest s = t ++ [10] ++ body_text ind more ++ nls trail ++ c0 :: t0 ->
+  s_rest s = t ++ [10] ++ body_text ind more ++ bl trail ++ c0 :: t0 ->
   (length more < fuel)%nat ->
   exists chunks',
     block_lines_f fuel folded (N.of_nat ind) s ch chunks breaks =
-    Ok (after s (t ++ [10] ++ body_text ind more ++ nls trail), chunks', [10], repeat [10] trail) /\
+    Ok (after s (t ++ [10] ++ body_text ind more ++ bl trail), chunks', [10], repeat [10] (length trail)) /\
     concat chunks' = concat chunks ++ concat breaks ++ t ++ block_body folded t more.
 Proof.
-  intros Hind Hc0. destruct (item_start_facts _ Hc0) as [Hc0n Hc032].
+  intros Hind Hc0 Htr. destruct (item_start_facts _ Hc0) as [Hc0n Hc032].
   induction more as [|[k t'] more IH]; intros fuel s ch t r chunks breaks Et Ht Hmore Hcol Hr Hf;
     (destruct fuel as [|f]; [cbn [length] in Hf; lia|]); cbn [block_lines_f].
   - cbn [body_text map concat app] in *.
@@ -349,25 +357,26 @@ Proof.
     rewrite (forward_after t s _ (Forall_txtc_nocr _ Ht) Hr). cbn [bind].
     pose proof (rest_after _ _ _ Hr) as Hr1.
     rewrite (scan_line_break_lf _ _ Hr1). cbn [bind].
-    assert (Hr2 : s_rest (after (after s t) [10]) = nls trail ++ sp 0 ++ c0 :: t0)
+    assert (Hr2 : s_rest (after (after s t) [10]) = bl trail ++ sp 0 ++ c0 :: t0)
       by (apply (rest_after [10]); exact Hr1).
     assert (Hbb : scan_block_scalar_breaks (after (after s t) [10]) (N.of_nat ind) =
-                  Ok (after (after (after s t) [10]) (nls trail ++ sp 0), repeat [10] trail)).
-    { eapply scan_block_scalar_breaks_spec; [exact Hc0n | | | | exact Hr2].
+                  Ok (after (after (after s t) [10]) (bl trail ++ sp 0), repeat [10] (length trail))).
+    { eapply scan_block_scalar_breaks_spec; [exact Hc0n | | | exact Htr | | exact Hr2].
       - lia.
       - right; split; [lia | exact Hc032].
       - pose proof (col_after_lf (after s t) []) as H. cbn [app] in H. exact H. }
     rewrite Hbb. cbn [bind sp repeat]. rewrite app_nil_r.
-    assert (Hcol3 : s_col (after (after (after s t) [10]) (nls trail)) = 0).
-    { rewrite <- !after_app. pose proof (col_after_nls s t trail [] (Forall_nil _)) as H.
+    assert (Hcol3 : s_col (after (after (after s t) [10]) (bl trail)) = 0).
+    { rewrite <- !after_app. pose proof (col_after_bl s t trail [] (Forall_nil _)) as H.
       rewrite !app_nil_r in H. exact H. }
     unfold at_content. rewrite Hcol3. replace (0 =? N.of_nat ind) with false by lia. cbn [bind].
     eexists. split.
     + rewrite <- !after_app, <- !app_assoc. reflexivity.
     + cbn [block_body]. ccat.
   - cbn [forallb] in Hmore. apply andb_true_iff in Hmore as [Ht' Hmore].
+    apply andb_true_iff in Ht' as [Hk Ht'].
     destruct (wf_btext_inv _ Ht') as (x' & r' & Et' & Hx' & Htt').
-    assert (Hr0 : s_rest s = t ++ 10 :: (nls k ++ sp ind ++ x' :: (r' ++ [10] ++ body_text ind more ++ nls trail ++ c0 :: t0))).
+    assert (Hr0 : s_rest s = t ++ 10 :: (bl k ++ sp ind ++ x' :: (r' ++ [10] ++ body_text ind more ++ bl trail ++ c0 :: t0))).
     { rewrite Hr. unfold body_text. cbn [map concat]. rewrite Et'. rewrite <- !app_assoc. reflexivity. }
     rewrite (line_count s t _ Ht Hr0). cbn [bind]. rewrite (prefix_app s t _ Hr0).
     rewrite (forward_after t s _ (Forall_txtc_nocr _ Ht) Hr0). cbn [bind].
@@ -375,19 +384,19 @@ Proof.
     rewrite (scan_line_break_lf _ _ Hr1). cbn [bind].
     pose proof (rest_after [10] _ _ Hr1) as Hr2.
     assert (Hbb : scan_block_scalar_breaks (after (after s t) [10]) (N.of_nat ind) =
-                  Ok (after (after (after s t) [10]) (nls k ++ sp ind), repeat [10] k)).
-    { eapply scan_block_scalar_breaks_spec; [| | | | exact Hr2].
+                  Ok (after (after (after s t) [10]) (bl k ++ sp ind), repeat [10] (length k))).
+    { eapply scan_block_scalar_breaks_spec; [| | | apply bl_le_ble; exact Hk | | exact Hr2].
       - charfact.
       - lia.
       - left; reflexivity.
       - pose proof (col_after_lf (after s t) []) as H. cbn [app] in H. exact H. }
     rewrite Hbb. cbn [bind].
-    set (s3 := after (after (after s t) [10]) (nls k ++ sp ind)) in *.
+    set (s3 := after (after (after s t) [10]) (bl k ++ sp ind)) in *.
     assert (Hcol3 : s_col s3 = N.of_nat ind).
     { unfold s3. rewrite <- !after_app.
-      pose proof (col_after_nls s t k (sp ind) (sp_colc ind)) as H. rewrite sp_length in H.
+      pose proof (col_after_bl s t k (sp ind) (sp_colc ind)) as H. rewrite sp_length in H.
       exact H. }
-    assert (Hr3 : s_rest s3 = t' ++ [10] ++ body_text ind more ++ nls trail ++ c0 :: t0).
+    assert (Hr3 : s_rest s3 = t' ++ [10] ++ body_text ind more ++ bl trail ++ c0 :: t0).
     { unfold s3. apply rest_after. rewrite Hr2, Et', <- !app_assoc. reflexivity. }
     unfold at_content. rewrite Hcol3, N.eqb_refl.
     assert (Hp3 : peek s3 0 = Ok x') by (eapply peek0; rewrite Hr3, Et'; reflexivity).
@@ -402,7 +411,7 @@ Proof.
       rewrite wsc_bs0, wsc_bs2. replace (is_lf [10]) with true by reflexivity. rewrite andb_true_r.
       rewrite concat_repeat_lf.
       destruct (folded && negb (wsc ch) && negb (wsc x')) eqn:E.
-      * destruct k as [|k]; cbn [repeat fold_sep nls]; ccat.
+      * destruct k as [|k0 k]; cbn [repeat fold_sep nls length]; ccat.
       * ccat.
 Qed.
 
@@ -414,21 +423,21 @@ Qed.
 (* ------------------------------------------------------------------ the whole block scalar *)
 
 Lemma body_ends ind first more trail :
-  exists a, first ++ [10] ++ body_text ind more ++ nls trail = a ++ [10] ++ nls trail.
+  exists a, first ++ [10] ++ body_text ind more ++ bl trail = a ++ [10] ++ bl trail.
 Proof.
   destruct more as [|[k t] more _] using rev_ind.
   - exists first. reflexivity.
-  - exists (first ++ [10] ++ body_text ind more ++ nls k ++ sp ind ++ t).
+  - exists (first ++ [10] ++ body_text ind more ++ bl k ++ sp ind ++ t).
     unfold body_text. rewrite map_app, concat_app. cbn [map concat]. rewrite app_nil_r.
     rewrite <- !app_assoc. reflexivity.
 Qed.
 
 Lemma value_spec_block vsp folded h lead indent first more trail :
-  wf_value (VBlock vsp folded h lead indent first more) = true ->
+  wf_value (VBlock vsp folded h lead indent first more) = true -> bl_le indent trail = true ->
   value_spec (VBlock vsp folded h lead indent first more) trail.
 Proof.
-  cbn [wf_value]. intros H.
-  apply andb_true_iff in H as [H Hmore]. apply andb_true_iff in H as [H Hfirst].
+  cbn [wf_value]. intros H Htrail.
+  apply andb_true_iff in H as [H Hlead]. apply andb_true_iff in H as [H Hmore]. apply andb_true_iff in H as [H Hfirst].
   apply andb_true_iff in H as [H Hexpl]. apply andb_true_iff in H as [H Hind].
   apply andb_true_iff in H as [_ Hcm].
   apply negb_true_iff, Nat.eqb_neq in Hind.
@@ -436,26 +445,26 @@ Proof.
   unfold value_spec. cbn [value_text value_meaning].
   set (c := if folded then 62 else 124).
   set (HDRREST := print_inds h indent ++ sp (h_sp h) ++ print_comment (h_comment h) ++ [10]).
-  set (BODY := nls lead ++ sp indent ++ first ++ [10] ++ body_text indent more ++ nls trail).
-  assert (Etext : print_header folded h indent ++ nls lead ++ sp indent ++ first ++ [10] ++
-                  concat (map (fun '(k, t) => nls k ++ sp indent ++ t ++ [10]) more) ++ nls trail
+  set (BODY := bl lead ++ sp indent ++ first ++ [10] ++ body_text indent more ++ bl trail).
+  assert (Etext : print_header folded h indent ++ bl lead ++ sp indent ++ first ++ [10] ++
+                  concat (map (fun '(ks, t) => bl ks ++ sp indent ++ t ++ [10]) more) ++ bl trail
                   = c :: HDRREST ++ BODY).
   { unfold print_header, HDRREST, BODY, print_inds, body_text, c. cbn [app]. rewrite <- ?app_assoc. reflexivity. }
   rewrite Etext.
   exists c, (HDRREST ++ BODY). split; [reflexivity|].
   split; [unfold stopc, lbc, c; destruct folded; repeat split; try discriminate; reflexivity|].
-  intros s c0 t0 Hcol Hc0 Hr.
+  intros s c0 t0 Hcol Hc0' Hr. pose proof (Hc0' eq_refl) as Hc0.
   exists (c :: HDRREST ++ BODY), []. split; [cbn [print_ltails map concat]; rewrite app_nil_r; reflexivity|].
   split; [reflexivity|].
-  assert (Hends : exists a, c :: HDRREST ++ BODY = a ++ [10] ++ nls trail).
+  assert (Hends : exists a, c :: HDRREST ++ BODY = a ++ [10] ++ bl trail).
   { destruct (body_ends indent first more trail) as [a Ha].
-    exists (c :: HDRREST ++ nls lead ++ sp indent ++ a). unfold BODY. rewrite Ha.
+    exists (c :: HDRREST ++ bl lead ++ sp indent ++ a). unfold BODY. rewrite Ha.
     change (c :: HDRREST ++ ?z) with ([c] ++ HDRREST ++ z).
     change (c :: HDRREST ++ ?z) with ([c] ++ HDRREST ++ z).
     rewrite <- ?app_assoc. reflexivity. }
   split.
   { intros _. destruct Hends as [a Ha]. rewrite Ha.
-    pose proof (col_after_nls s a trail [] (Forall_nil _)) as Hc. rewrite !app_nil_r in Hc. exact Hc. }
+    pose proof (col_after_bl s a trail [] (Forall_nil _)) as Hc. rewrite !app_nil_r in Hc. exact Hc. }
   (* the scan *)
   unfold value_scan. replace (mem_N c in_tokenize_1) with true by (unfold c; destruct folded; reflexivity).
   unfold scan_block_scalar.
@@ -481,40 +490,42 @@ Proof.
   { unfold s2. rewrite (rest_after _ _ _ Hr1'). rewrite <- Exh. reflexivity. }
   rewrite (scan_block_scalar_ignored_line_spec s2 _ _ _ Hcm Hr2). cbn [bind].
   set (s3 := after s2 (sp (h_sp h) ++ print_comment (h_comment h) ++ [10])) in *.
-  assert (Hr3 : s_rest s3 = nls lead ++ sp indent ++ x :: (r ++ [10] ++ body_text indent more ++ nls trail ++ c0 :: t0)).
+  assert (Hr3 : s_rest s3 = bl lead ++ sp indent ++ x :: (r ++ [10] ++ body_text indent more ++ bl trail ++ c0 :: t0)).
   { unfold s3. erewrite rest_after; [| rewrite Hr2, <- !app_assoc; reflexivity].
     unfold BODY. rewrite Ex. rewrite <- ?app_assoc. reflexivity. }
   assert (Hcol3 : s_col s3 = 0).
   { unfold s3. rewrite app_assoc. apply col_after_lf. }
-  set (s4 := after s3 (nls lead ++ sp indent)).
+  set (s4 := after s3 (bl lead ++ sp indent)).
   assert (Hind4 : (match (if h_explicit h then Some (N.of_nat indent) else None) with
             | None => do x0 <- scan_block_scalar_indentation s3;
                       let '(s4, breaks, max_indent) := x0 in Ok (s4, breaks, N.max 1 max_indent)
             | Some inc => do x0 <- scan_block_scalar_breaks s3 (1 + inc - 1);
                           let '(s4, breaks) := x0 in Ok (s4, breaks, 1 + inc - 1)
-            end) = Ok (s4, repeat [10] lead, N.of_nat indent)).
+            end) = Ok (s4, repeat [10] (length lead), N.of_nat indent)).
   { destruct (h_explicit h) eqn:He.
     - replace (1 + N.of_nat indent - 1) with (N.of_nat indent) by lia.
-      erewrite (scan_block_scalar_breaks_spec (N.of_nat indent) lead s3 indent x); [reflexivity | charfact | lia | left; reflexivity | exact Hcol3 | exact Hr3].
+      erewrite (scan_block_scalar_breaks_spec (N.of_nat indent) lead s3 indent x); [reflexivity | charfact | lia | left; reflexivity | apply bl_le_ble; exact Hlead | exact Hcol3 | exact Hr3].
     - unfold scan_block_scalar_indentation.
       assert (Hx32 : x <> 32).
       { rewrite Ex in Hexpl. cbn [first_is] in Hexpl. apply negb_true_iff in Hexpl. lia. }
-      erewrite (block_indentation_spec lead _ s3 [] indent x); [| charfact | exact Hcol3 | exact Hr3 |].
-      2:{ unfold fuel_of. rewrite Hr3, !app_length, nls_length, sp_length. cbn [length]. lia. }
+      erewrite (block_indentation_spec lead _ s3 [] 0 indent x); [| charfact | exact Hcol3 | lia | | exact Hr3 |].
+      3:{ unfold fuel_of. rewrite Hr3, !app_length, sp_length. cbn [length]. lia. }
+      2:{ unfold bl_le in Hlead. rewrite forallb_forall in Hlead. apply Forall_forall. intros n0 Hn0.
+          specialize (Hlead _ Hn0). apply Nat.leb_le in Hlead. exact Hlead. }
       cbn [bind app]. f_equal. f_equal. lia. }
   rewrite Hind4. cbn [bind].
-  assert (Hr4 : s_rest s4 = first ++ [10] ++ body_text indent more ++ nls trail ++ c0 :: t0).
+  assert (Hr4 : s_rest s4 = first ++ [10] ++ body_text indent more ++ bl trail ++ c0 :: t0).
   { unfold s4. rewrite (rest_after _ _ _ (eq_trans Hr3 (app_assoc _ _ _))), Ex. reflexivity. }
   assert (Hcol4 : s_col s4 = N.of_nat indent).
   { unfold s4. destruct (exists_last (l := c :: HDRREST)) as (a & b & Eab); [discriminate|].
     unfold s3, s2, s1. rewrite <- !after_app.
-    pose proof (col_after_nls s ([c] ++ print_inds h indent ++ sp (h_sp h) ++ print_comment (h_comment h)) lead (sp indent) (sp_colc indent)) as Hc.
+    pose proof (col_after_bl s ([c] ++ print_inds h indent ++ sp (h_sp h) ++ print_comment (h_comment h)) lead (sp indent) (sp_colc indent)) as Hc.
     rewrite sp_length in Hc. rewrite <- Hc. f_equal. rewrite <- ?app_assoc. reflexivity. }
   unfold at_content. rewrite Hcol4, N.eqb_refl.
   assert (Hp4 : peek s4 0 = Ok x) by (eapply peek0; rewrite Hr4, Ex; reflexivity).
   rewrite Hp4. cbn [bind]. replace (is_end x) with false by charfact. cbn [negb bind].
-  destruct (block_lines_spec (c =? c_gt) indent trail c0 t0 Hind Hc0 more (fuel_of s4) s4 x first r
-              [] (repeat [10] lead) Ex Htf Hmore Hcol4 Hr4) as (chunks' & Hrun & Hcat).
+  destruct (block_lines_spec (c =? c_gt) indent trail c0 t0 Hind Hc0 (bl_le_ble _ _ Htrail) more (fuel_of s4) s4 x first r
+              [] (repeat [10] (length lead)) Ex Htf Hmore Hcol4 Hr4) as (chunks' & Hrun & Hcat).
   { unfold fuel_of. rewrite Hr4, !app_length. pose proof (body_text_length indent more). lia. }
   rewrite Hrun. cbn [bind].
   assert (Hfold : (c =? c_gt) = folded) by (unfold c; destruct folded; reflexivity).
